@@ -157,6 +157,10 @@ REWRITES = {
     "map_json_string": (r"\.map\(JsonValue::String\)", r".map_json_string()", "`.map(JsonValue::String)` wraps every key in the String variant (an enum constructor used as a function value is outside Verus)"),
     "factory_call": (r"\(self\.build_extractor\)\(args\)", r"self.build_extractor.call(args)",
         "the field `build_extractor: fn(Vec<Rc<dyn Get>>) -> Rc<dyn Get>` is the opaque stand-in `Factory` (Verus rejects function pointer types); calling it is `call`"),
+    "box_as_mut": (r"\b(\w+)\.as_mut\(\)", r"&mut *\1",
+        "`b.as_mut()` on a Box is the mutable reborrow `&mut *b` of the boxed value (Box::as_mut has no specification in vstd)"),
+    "stdin_call": (r"\(self\.stdin\)\(\)", r"self.stdin.call()",
+        "calling the opaque `Box<dyn Fn() -> S>` field (rewrite stdin_factory) is the method `call` of its stand-in: some reader, nothing known about it"),
     "to_string_fn": (r"(\w+)\.to_str\(\)\.map\(ToString::to_string\)", r"vopen::name_of(\1)",
         "`path.to_str().map(ToString::to_string)` (a trait method used as a function value is outside Verus) is the stand-in name_of(path): the path as text when it is valid UTF-8"),
     "f64_op_assign": (r"\b(\w+) ([+*])= (\w+);", r"\1 = \1 \2 \3;",
@@ -370,6 +374,7 @@ class FnSpec:
         self.is_slice = False
         self.from_anchor = self.to_anchor = self.must_precede = None
         self.must_contain = []
+        self.from_after = None   # the slice starts on the line after this anchor (the last line of the preceding slice)
         self.prologue, self.epilogue = [], []
         self.loop_starts = {}
         self.loop_ends = {}
@@ -502,6 +507,8 @@ def parse_template(path):
                         fs.from_anchor = d[5:].strip().strip('"'); target = None
                     elif d.startswith("to "):
                         fs.to_anchor = d[3:].strip().strip('"'); target = None
+                    elif d.startswith("from-after "):
+                        fs.from_after = d[len("from-after "):].strip().strip('"'); target = None
                     elif d.startswith("must-contain "):
                         fs.must_contain.append(d[len("must-contain "):].strip().strip('"')); target = None
                     elif d.startswith("must-precede "):
@@ -748,7 +755,13 @@ def build_slice(fs, canary=False):
         if len(hits) != 1:
             raise ExtractError("lost anchor: slice %s: %r matches %d body lines" % (fs.id, anchor, len(hits)))
         return hits[0]
-    i0, i1 = find(fs.from_anchor), find(fs.to_anchor)
+    if getattr(fs, "from_after", None):
+        # the slice begins right after the last line of the preceding slice: nothing of the function lies between the two
+        i0 = find(fs.from_after) + 1
+        fs.from_anchor = "(the line after) " + fs.from_after
+    else:
+        i0 = find(fs.from_anchor)
+    i1 = find(fs.to_anchor)
     if i1 < i0:
         raise ExtractError("slice %s: `to` precedes `from`" % fs.id)
     a, b = offs[i0], offs[i1] + len(blines[i1])
@@ -1143,7 +1156,11 @@ def generate(template, out_path, canary=False, lenient=False):
             gen.extend(lines)
             infos.append(info)
         elif kind == "fn":
-            lines, info = build_fn(payload, canary=canary)
+            try:
+                lines, info = build_fn(payload, canary=canary)
+            except ExtractError as e:
+                e.fid = payload.id      # which function / slice could not be extracted
+                raise
             gen.extend(lines)
             infos.append(info)
     problems = self_check(gen, infos)
